@@ -222,6 +222,14 @@ func (s *State) key(v ssa.Value, d int) string {
 		if v.Op != token.MUL && v.Op != token.ARROW {
 			return v.Op.String() + s.key(v.X, d+1)
 		}
+		// a load of a field that is only ever written during construction: the same value for the same object
+		if v.Op == token.MUL {
+			if fa, ok := v.X.(*ssa.FieldAddr); ok {
+				if f := FieldOfAddr(fa); f != nil && s.P.FrozenField(f) {
+					return "fld:" + s.key(fa.X, d+1) + "." + f.Name()
+				}
+			}
+		}
 	case *ssa.Global:
 		return "g:" + v.String()
 	case *ssa.Function:
